@@ -286,3 +286,38 @@ func init() {
 		}
 	}
 }
+
+// Hand-written evolved variants of catalog types (C03): fields removed, added
+// under fresh indexes, renamed and reordered.
+type TreeV2 struct {
+	Label string   `plenc:"3"` // renamed from Name
+	Extra int      `plenc:"9"` // added
+	Kids  []TreeV2 `plenc:"2"`
+	// V (index 1) removed
+}
+
+type ListV2 struct {
+	Added []string `plenc:"7"`
+	Next  *ListV2  `plenc:"2"`
+	V     string   `plenc:"1"`
+	// N (index 3) removed
+}
+
+type MidV2 struct {
+	Ss    NStrings          `plenc:"12"`
+	New1  map[string]string `plenc:"20"`
+	P     *Leaf             `plenc:"2"`
+	F     float64           `plenc:"4"`
+	New2  *int              `plenc:"21"`
+	Is    NInts             `plenc:"7"`
+	Fl    NInt64            `plenc:"10,flat"`
+	Other NString           `plenc:"6,intern"`
+	// L(1), Ls(3), N(5), M(8), U(9), Bs(11) removed
+}
+
+func init() {
+	RegisterNamed("TreeV2", TreeV2{})
+	RegisterNamed("ListV2", ListV2{})
+	RegisterNamed("MidV2", MidV2{})
+	markRecursive()
+}
